@@ -206,11 +206,16 @@ class Model:
             raise AnalysisError(f"cell model: helper calls nested deeper than {depth_limit} at line {call.lineno}")
         fn = finfo.node
         params = [a.arg for a in fn.args.args]
-        env = {params[0]: interp.env.get("self", {"__biomol__": True}), "__depth__": depth + 1}
+        decos = {U(d) for d in fn.decorator_list}
+        env = {"__depth__": depth + 1}
+        if "staticmethod" in decos:
+            names = params
+        else:
+            env[params[0]] = interp.env.get("self", {"__biomol__": True})  # self, or the class for a classmethod (never inspected)
+            names = params[1:]
         for k in ("__dist__", "__cls__"):
             if k in interp.env:
                 env[k] = interp.env[k]
-        names = params[1:]
         defaults = fn.args.defaults
         kws = {k.arg: k.value for k in call.keywords if k.arg}
         for i, pname in enumerate(names):
